@@ -29,6 +29,7 @@ def _setup():
 
 
 ALPHABET = "a !&'\"#$\n"
+ALPHABET_DIR = "#a /*\\\"\n"        # second exhaustive block: texts that begin with # (directive-line scanning)
 
 
 def tok(n):
@@ -38,7 +39,8 @@ def tok(n):
 class C17(Check):
     prop_id = "C17"
     rule = ("(1) exhaustive: every newline-terminated text of <= 6 (quick) / 7 (thorough) characters over "
-            "{a, blank, !, &, ', \", #, $, newline} as a .f90 file through FileParser.parse_file; (2) grammar-based "
+            "{a, blank, !, &, ', \", #, $, newline}, and every such text beginning with # over {#, a, blank, /, *, backslash, \", newline}, "
+            "as a .f90 file through FileParser.parse_file; (2) grammar-based "
             "free-form programs: statements with 0-3 continuation lines (with and without leading &, comment / blank / "
             "directive lines interleaved), character literals with doubled quotes and embedded ! & // #, split literals, "
             "trailing and full-line comments, !$omp / !dir$ sentinels, nested #if/#ifdef/#ifndef/#elif/#else/#endif, "
@@ -80,6 +82,10 @@ class C17(Check):
             for t in itertools.product(ALPHABET, repeat=k):
                 out.append(["".join(t) + "\n", []])
         out.append(["", []])
+        # (1b) directive lines: # followed by every body of <= bound-1 characters over {# a blank / * \ " newline}
+        for k in range(0, bound):
+            for t in itertools.product(ALPHABET_DIR, repeat=k):
+                out.append(["#" + "".join(t) + "\n", []])
         self.hist["exhaustive"] = len(out)
         # (2) grammar-based programs
         n = 500 if self.tier == "quick" else 12000
@@ -323,7 +329,8 @@ class C17(Check):
 
     def extra_coverage(self):
         return {"input_distribution": self.hist,
-                "exhaustive": {"alphabet": ALPHABET, "max_body_length": 5 if self.tier == "quick" else 6},
+                "exhaustive": {"alphabet": ALPHABET, "directive_alphabet": "#" + ALPHABET_DIR,
+                               "max_body_length": 5 if self.tier == "quick" else 6},
                 "spec_oracle": "gfortran -cpp -E -P" if shutil.which("gfortran") else "absent",
                 "spec_oracle_cases": self.oracle_cases, "spec_oracle_dropped_diagnosed": self.oracle_dropped,
                 "spec_oracle_disagreements": len(self.oracle_bad),
